@@ -26,10 +26,10 @@ ASSUMPTIONS = ['domain as stated by the property: rectangular tables, unique key
 KINDS = ['melt-recast', 'recast-direct', 'melt', 'transpose', 'flatten', 'unflatten-period', 'pivot', 'unpack', 'unpackdict', 'capture', 'split', 'splitdown',
          'dicts-roundtrip', 'columns-roundtrip']
 REQUIRED = (['views-read-twice', 'regex-flags', 'unpackdict:keys-from-a-sample-shorter-than-the-table'] + ['kind:' + k for k in KINDS] + ['none-key', 'compound-key', 'key-not-leading', 'one-column', 'period=1', 'period=width',
-            'pivot-missing-pair', 'field-by-index', 'include-original', 'explicit-variables-permuted', 'fromdicts-sample<nrows', 'fromdicts-generator:lagging-iterator'])
+            'pivot-missing-pair', 'field-by-index', 'include-original', 'explicit-variables-permuted', 'fromdicts-sample<nrows', 'fromdicts-generator:lagging-iterator', 'melt:key-inferred-from-variables', 'recast:sample-shorter-than-the-molten-table'])
 VALS = [None, 0, 1, 2.5, 'a', 'b', '', b'x', (1, 2), gen.D(2020, 1, 1), True]
 KEYS = [None, 1, 2, 3, 'a', 'b', b'a', (1, 2), 2.5, gen.D(2020, 1, 1)]
-NAMES = ['alpha', 'beta', 'gamma', 'delta', 'eps']
+NAMES = ['alpha', 'beta', 'gamma', 'delta', 'eps', 'al', 'eta']      # 'al' / 'eta' are substrings of other names on purpose
 
 
 def cases(ctx):
@@ -68,6 +68,11 @@ def cases(ctx):
                 vs = rng.sample(vars_, rng.randint(1, len(vars_)))
                 c['variables'] = vs
             c['vf'] = rng.choice([('variable', 'value'), ('var', 'val')])
+            if c['variables'] is not None and rng.random() < 0.4:
+                # the key left to be inferred (every field that is not a variable), the variables as a list or tuple of names or one bare name (indices are echoed as they are in the variable column: not used)
+                c['keyform'] = 'inferred'
+                c['varform'] = rng.choice(['names', 'scalar' if len(c['variables']) == 1 else 'names', 'scalar' if len(c['variables']) == 1 else 'tuple', 'tuple'])
+            c['samplesize'] = rng.choice([None, None, 'nvars', 'nvars+1', 'all', 'all-1'])
         elif kind == 'recast-direct':
             # a long table with repeated and missing (id, variable) pairs, optional reducers / missing / second key field
             ids = rng.sample([None, 1, 2, 'a', (1, 2), 2.5], rng.randint(1, 4))
@@ -161,6 +166,11 @@ def judge(case, ctx):
     if kind in ('melt', 'melt-recast'):
         key = case['key']
         klist = key if isinstance(key, list) else [key]
+        inferred = case.get('keyform') == 'inferred' and case['variables'] is not None
+        if inferred:
+            klist = [h for h in hdr if h not in case['variables']]
+            key = None
+            ctx.seen('melt:key-inferred-from-variables')
         kidx = [hdr.index(k) for k in klist]
         vf, valf = case['vf']
         variables = case['variables'] if case['variables'] is not None else [h for h in hdr if h not in klist]
@@ -175,6 +185,10 @@ def judge(case, ctx):
         kw = {'variablefield': vf, 'valuefield': valf}
         if case['variables'] is not None:
             kw['variables'] = case['variables']
+            if inferred:
+                vform = case.get('varform', 'names')
+                kw['variables'] = {'names': list(variables), 'tuple': tuple(variables), 'indices': [hdr.index(v) for v in variables],
+                                   'scalar': variables[0]}[vform]
         exp_melt = [tuple(hdr[i] for i in kidx) + (vf, valf)]
         for r in rows:
             for v in variables:
@@ -189,7 +203,17 @@ def judge(case, ctx):
             return None
         if not variables:
             return None
-        back = util.attempt_rows_twice(lambda: petl.recast(petl.melt(copy.deepcopy(case['table']), key, **kw), key=key, variablefield=vf, valuefield=valf))
+        rkw = {}
+        ss = case.get('samplesize')
+        if ss is not None and rows:
+            # the variables are discovered from the first `samplesize` molten rows: melt emits all variables of the first source row
+            # first, so any sample of at least that many rows finds them all, and the whole table must still come out
+            total = len(rows) * len(variables)
+            rkw['samplesize'] = {'nvars': len(variables), 'nvars+1': len(variables) + 1, 'all': total, 'all-1': max(len(variables), total - 1)}[ss]
+            if rkw['samplesize'] < total:
+                ctx.seen('recast:sample-shorter-than-the-molten-table')
+        rkey = key if key is not None else (klist if len(klist) != 1 else klist[0])
+        back = util.attempt_rows_twice(lambda: petl.recast(petl.melt(copy.deepcopy(case['table']), key, **kw), key=rkey, variablefield=vf, valuefield=valf, **rkw))
         svars = sorted(variables)
         exp = [tuple(klist) + tuple(svars)]
         srows = sorted(rows, key=lambda r: util.model_key(tuple(r[i] for i in kidx)))
